@@ -20,7 +20,7 @@ TEXT = {
                 "revoked, or is the fix of a revoked entry (verified under the states in force at that entry; unverified with F3), or is a "
                 "propagation entry (F2); that state IS the declarative policyBefore of Spec/C01 - the state recorded by the latest policy "
                 "entry strictly before the entry in the whole log, inside the range or before it (polInForce_eq_policyBefore, "
-                "initialPolicy_records, loadState_chain, C01_policy_in_force_is_policyBefore; attInForce_eq_attBefore inside the range) - "
+                "initialPolicy_records, loadState_chain, C01_policy_in_force_is_policyBefore; likewise attBefore: C01_att_in_force_is_attBefore) - "
                 "so later or earlier states never legitimize an entry; and verifyEntry's acceptance means what the property says for the Git rule: a consulted "
                 "rule is met by >= threshold distinct principals of its own, injectively credited through valid signatures over this entry / "
                 "this authorization or matched to code-review approvers (go_accept_rule_met, verifyObject_accept, C01_entry_accept), which "
@@ -31,8 +31,7 @@ TEXT = {
                 "code accepts what the declarative property (c01Sound) forbids, and the repaired variants reject. The declarative "
                 "property is evaluated by the driver on the verdict the REAL verifier returns for every generated history; the model "
                 "(open defects as explicit Variant flags) must reproduce every verdict and tip of the real code.",
-        "note": TB + "Not yet theorems: the same declarative link for file rules and for policies with global rules; the attestation state the "
-                "walk starts from (before the first in-range attestation entry) is tied to attBefore by the correspondence only. "
+        "note": TB + "Not yet theorems: the same declarative link for file rules and for policies with global rules. "
                 "F1 (fixed in /repo, 00d1364) and F4 (fixed, 8a14108) stay in the corpus as regression witnesses; F2, F3 are open findings reproduced on every run.",
         "technique": "Lean 4 proof (loop invariant by induction on fuel, queue-partition lemma for recovery) + differential correspondence with spec evaluated on the implementation",
     },
